@@ -578,8 +578,15 @@ def stack(arrays, /, *, axis=0):
     if not arrays:
         raise ValueError("Need array(s) to stack")
 
-    # TODO: check arrays all have same shape
-    # TODO: unify chunks
+    if any(x.shape != arrays[0].shape for x in arrays):
+        raise ValueError(
+            f"all input arrays must have the same shape: {[x.shape for x in arrays]}"
+        )
+
+    # unify chunks
+    inds = [list(range(x.ndim)) for x in arrays]
+    uc_args = chain.from_iterable(zip(arrays, inds))
+    _, arrays = unify_chunks(*uc_args, warn=False)
 
     a = arrays[0]
 
